@@ -203,3 +203,28 @@ class _ModuleScope:
         self.node = ast.Module(body=[], type_ignores=[])
         self.cls = None
         self.selfname = None
+
+
+def resolve_local(func, expr, depth=0):
+    """follow a local name bound exactly once (by plain assignment) to its value"""
+    while isinstance(expr, ast.Name) and depth < 6:
+        asg = [n for n in walk_own(func.node) if isinstance(n, ast.Assign) and len(n.targets) == 1
+               and isinstance(n.targets[0], ast.Name) and n.targets[0].id == expr.id]
+        others = [n for n in walk_own(func.node) if isinstance(n, (ast.AugAssign, ast.For, ast.comprehension)) and any(
+            isinstance(x, ast.Name) and x.id == expr.id and isinstance(x.ctx, ast.Store) for x in ast.walk(n.target))]
+        if len(asg) != 1 or others or expr.id in func.params:
+            return expr
+        expr = asg[0].value
+        depth += 1
+    return expr
+
+
+def local_def(func, name):
+    """nested function / lambda bound to ``name`` inside func"""
+    for n in walk_own(func.node):
+        pass
+    for n in ast.walk(func.node):
+        if isinstance(n, ast.FunctionDef) and n.name == name and n is not func.node:
+            return n
+    v = resolve_local(func, ast.Name(id=name, ctx=ast.Load()))
+    return v if isinstance(v, ast.Lambda) else None
